@@ -37,7 +37,8 @@ RULE = ("for a configuration (grid of 1-4 variations, rep_max below / at / "
         "(ids of the first and second run come from disjoint ranges).  "
         "Work that the log shows as durably saved must still be held by a file "
         "at the crash (durable-work-kept).  Some configurations stop early "
-        "through _keep_going (the combination is complete below rep_max).  "
+        "through _keep_going (the combination is complete below rep_max) and "
+        "some raise SkipThisOne in 25-45 % of the attempts.  "
         "Same-object histories raise KeyboardInterrupt / RuntimeError / "
         "MemoryError inside repetition k and call simulate() again on the same "
         "runner.  Parameter-guard histories restart with a changed fixed value / "
@@ -95,6 +96,13 @@ class CrashRunner(SimulationRunner):
         if f and f[0] == self.ncalls and f[1] == "before":
             self.log("crash rep", self.ncalls, "before")
             os._exit(137)
+        p = getattr(self.conf, "skip_p", 0.0)
+        if p:
+            key = (self.conf.rep_max, self.uid // UID_RESTART, max(current_params.unpack_index, 0),
+                   self.ncalls)
+            if (core.sig_hash(key) % 1000) / 1000.0 < p:
+                self.log("skip", current_params.unpack_index, self.ncalls)
+                raise SkipThisOne("injected skip")
         uid = self.uid
         self.uid += 1
         self.log("call", current_params.unpack_index, uid)
@@ -339,6 +347,8 @@ def gen_conf(rng, big):
     c.stop_at = None
     if not big and rng.random() < 0.3:
         c.stop_at = int(rng.integers(1, c.rep_max + 2))
+    # some repetitions raise SkipThisOne (never counted, never saved)
+    c.skip_p = float(rng.choice([0.0, 0.0, 0.25, 0.45])) if not big else 0.0
     return c
 
 
@@ -347,7 +357,7 @@ def conf_tag(c):
             "rep_max": c.rep_max, "delete_partial": c.delete_partial,
             "results_name": c.results_name, "partial_folder": c.partial_folder,
             "virtual_clock_step": getattr(c, "clock_step", 0),
-            "stop_at": getattr(c, "stop_at", None)}
+            "stop_at": getattr(c, "stop_at", None), "skip_probability": getattr(c, "skip_p", 0.0)}
 
 
 def want_reps(c):
@@ -520,6 +530,10 @@ def case_crash(ctx, rng, idx):
     pts = enumerate_points(dry, rng, big, budget)
     complete = not big and len(pts) <= budget
     ctx.tally("configurations")
+    if conf.skip_p:
+        ctx.tally("configurations-with-skips")
+    if conf.stop_at is not None:
+        ctx.tally("configurations-with-early-stop")
     if complete:
         ctx.tally("configurations-enumerated-completely")
     for kind, point in pts:
@@ -638,6 +652,7 @@ def case_guard(ctx, rng, idx):
     conf.unpacked = {"snr": np.array([0.0, 5.0, 10.0])}
     conf.rep_max = int(rng.choice([2, 3, 5]))
     conf.stop_at = None
+    conf.skip_p = 0.0
     conf.delete_partial = False
     conf.results_name = ["res", "res.json"][idx % 2]      # no template: same file names
     tag = conf_tag(conf)
